@@ -150,6 +150,26 @@ def run(ck, w):
     if good:
         ck.ok(o, sites=[pre[0].site(), exc[0].site()], instances=len(somes))
 
+    o = ck.ob("C12.2c", "restore_dir creates the directory with ALL its missing parents (create_dir_all on the path it was given): a subtree "
+                        "selected at any depth can be restored into an empty destination")
+    rd = lib.bodies.get("restore::restore_dir")
+    if rd is None:
+        ck.fail(o, "restore::restore_dir", "anchor-missing", "restore_dir not found")
+    else:
+        fam = lib.family("restore::restore_dir")
+        cda = [(fb, e) for fb in fam for e in fb.events if e.bb in fb.live and re.search(r"^(std|tokio)::fs::create_dir_all$|DirBuilder::recursive$", e.name)]
+        single = [(fb, e) for fb in fam for e in fb.events if e.bb in fb.live and re.search(r"^(std|tokio)::fs::create_dir$", e.name)]
+        if single and not cda:
+            ck.fail(o, rd.name, "parents are not created recursively", "restore_dir uses create_dir, which does not create missing ancestors", single[0][1].site())
+        elif not cda:
+            ck.fail(o, rd.name, "no directory creation", "restore_dir does not create the directory")
+        else:
+            src = flow.origins_x(lib, cda[0][0], cda[0][1].args[0])
+            if any(x[0] == "param" and x[1] in ("restore_path", "path") for x in src) or any(x[0] == "param" for x in src):
+                ck.ok(o, sites=[cda[0][1].site()])
+            else:
+                ck.fail(o, rd.name, "creates another path", "create_dir_all argument derives from %s" % flow.origin_summary(src), cda[0][1].site())
+
     # ---- 3. PROV plumbing ----------------------------------------------------------------------------
     o = ck.ob("C12.3a", "restore(): the subtree given to iter_entries is options.only_subtree, else the root")
     rb = w.body("restore::restore")
